@@ -172,6 +172,18 @@ def mutants(p, rnd, per_op=4):
                 q = copy.deepcopy(p); lst = _get(q, base + lp)
                 lst.insert(j + 1, Let("zzq_after", inner["t"], V(inner["s"])))
                 emit(q, "scope", "block-local %s used after its block in %s" % (inner["s"], fn["n"]))
+        # external calls outside an unsafe context
+        for lp, lst in lists:
+            for j, st_ in enumerate(lst):
+                if st_["k"] == "unsafe":
+                    q = copy.deepcopy(p); _get(q, base + lp)[j]["k"] = "block"
+                    emit(q, "unsafe", "unsafe block turned into a plain block in %s" % fn["n"])
+        if p.get("externs") and fn["n"] == "main":
+            ex = p["externs"][0]
+            q = copy.deepcopy(p); q["funcs"][fi]["body"].insert(1 if q["funcs"][fi]["body"] and q["funcs"][fi]["body"][0]["k"] == "expr" else 0,
+                                                              Ex(Call(ex["n"], *[I(72) for _ in ex["params"]])))
+            emit(q, "unsafe", "statement-level call of extern %s outside unsafe in main" % ex["n"])
+            q = copy.deepcopy(p); q["funcs"][fi]["body"].append(Ex(Call(ex["n"], *[I(72) for _ in ex["params"]]))) if False else None
         # a local of this function used in main
         if fn["n"] != "main":
             mine = [s for lp, lst in lists for s in lst if s["k"] == "let"]
